@@ -153,8 +153,9 @@ impl Fst {
             .skip(1);
 
         let shape = sfs.shape();
-        let n_i_sub = (shape[0] - 2) as f64;
-        let n_j_sub = (shape[1] - 2) as f64;
+        // Floating-point arithmetic, so that degenerate shapes give NaN rather than underflow
+        let n_i_sub = shape[0] as f64 - 2.0;
+        let n_j_sub = shape[1] as f64 - 2.0;
 
         let (num, denom) = polymorphic_iter
             .map(|(v, fs)| {
